@@ -132,9 +132,11 @@ def leg_m(ctx, module, cfg, workers=None, timeout=1800, coverage_need=None):
     return gen, dist
 
 
-def tail_err(out, n=40):
-    lines = [l for l in out.splitlines() if not re.match(r"^(Parsing|Semantic|Linting)", l)]
-    return "\n".join(lines[-n:])
+def tail_err(out, n=12):
+    """The part of a TLC output that explains a failure: error lines first, then the tail (long lines cut)."""
+    lines = [l[:300] for l in out.splitlines() if not re.match(r"^(Parsing|Semantic|Linting)", l) and not l.startswith('<<"')]
+    errs = [l for l in lines if re.search(r"(?i)error|exception|violated|out of memory|killed", l)][:15]
+    return "\n".join(errs + ["..."] + lines[-n:])
 
 
 def leg_g(ctx, module, cfg, tag, outfile, workers=4, timeout=1800):
@@ -159,8 +161,8 @@ def leg_g(ctx, module, cfg, tag, outfile, workers=4, timeout=1800):
     return path, n
 
 
-_VIOL = re.compile(r'^<<"VIOL", (\d+), \{(.*)\}>>$')
-_DRIFT = re.compile(r'^<<"DRIFT", (\d+), \{(.*)\}>>$')
+_VIOL = re.compile(r'^<<"VIOL",\s*(\d+),\s*\{(.*)\}\s*>>$')
+_DRIFT = re.compile(r'^<<"DRIFT",\s*(\d+),\s*\{(.*)\}\s*>>$')
 
 
 def leg_v(ctx, module, cfg, tracefile, strip=("conc", "marker", "stray", "panic"), timeout=1800, label="V"):
@@ -181,7 +183,22 @@ def leg_v(ctx, module, cfg, tracefile, strip=("conc", "marker", "stray", "panic"
         raise Machinery("Leg V %s: empty trace %s" % (module, tracefile))
     rc, out = tlc(ctx, module, cfg, workers=1, timeout=timeout, env={"VERIF_TRACE": lean}, tag=label)
     viols, drifts = [], []
+    # TLC pretty-prints a long PrintT value over several lines: join continuation lines first
+    joined, cur = [], None
     for line in out.splitlines():
+        if cur is not None:
+            cur += " " + line.strip()
+            if line.rstrip().endswith(">>"):
+                joined.append(cur)
+                cur = None
+            continue
+        if (line.startswith('<<"VIOL",') or line.startswith('<<"DRIFT",')) and not line.rstrip().endswith(">>"):
+            cur = line.rstrip()
+            continue
+        joined.append(line)
+    if cur is not None:
+        joined.append(cur)
+    for line in joined:
         m = _VIOL.match(line)
         if m:
             viols.append((int(m.group(1)), re.findall(r'"([^"]+)"', m.group(2))))
